@@ -53,6 +53,7 @@ type scheduler struct {
 	timerSeq    int
 	steps       int
 	crashPending bool
+	timerFires   int
 }
 
 func (r *runState) scheduler() *scheduler {
@@ -224,6 +225,15 @@ func (s *scheduler) fireNextTimer() bool {
 		return false
 	}
 	best.fired = true
+	s.timerFires++
+	if s.timerFires > 40 {
+		// time keeps passing while nobody makes progress
+		pe := pathEnd{endDeadlock, "livelock: 40 timer expirations on one path (goroutines keep polling without progress); " + s.describeBlocked()}
+		if s.abort == nil {
+			s.abort = &pe
+		}
+		return false
+	}
 	if best.at > s.now {
 		s.now = best.at
 	}
@@ -279,6 +289,9 @@ func (s *scheduler) block(g *gor, why string, ready func() bool) {
 		next := s.pick(nil)
 		if next == nil {
 			pe := pathEnd{endDeadlock, s.describeBlocked()}
+			if s.abort != nil {
+				pe = *s.abort
+			}
 			if g.id == 0 {
 				g.state = gRunnable
 				panic(pe)
@@ -308,35 +321,38 @@ func (s *scheduler) yieldPoint(g *gor, what string) {
 	if s.preemptions >= s.r.ex.Opts.Preemptions {
 		return
 	}
-	rs := s.runnable()
-	// a pending timer may also expire now (time passes while goroutines are still running)
-	timerPending := false
-	for _, t := range s.timers {
-		if !t.fired && !t.dead {
-			timerPending = true
+	for s.preemptions < s.r.ex.Opts.Preemptions {
+		rs := s.runnable()
+		// a pending timer may also expire now (time passes while goroutines are still running)
+		timerPending := false
+		for _, t := range s.timers {
+			if !t.fired && !t.dead {
+				timerPending = true
+			}
 		}
-	}
-	if len(rs) <= 1 && !timerPending {
+		if len(rs) <= 1 && !timerPending {
+			return
+		}
+		// order: current first (choice 0 = continue)
+		sort.SliceStable(rs, func(i, j int) bool { return rs[i] == g && rs[j] != g })
+		n := len(rs)
+		if timerPending {
+			n++
+		}
+		k := s.r.choose(n)
+		if k == 0 {
+			return
+		}
+		s.preemptions++
+		if k == len(rs) {
+			s.log(fmt.Sprintf("timer expires early (before %s of g%d)", what, g.id))
+			s.fireNextTimer()
+			continue // the goroutines woken by the timer may now be scheduled
+		}
+		s.log(fmt.Sprintf("preempt g%d(%s) before %s", g.id, g.name, what))
+		s.transfer(g, rs[k])
 		return
 	}
-	// order: current first (choice 0 = continue)
-	sort.SliceStable(rs, func(i, j int) bool { return rs[i] == g && rs[j] != g })
-	n := len(rs)
-	if timerPending {
-		n++
-	}
-	k := s.r.choose(n)
-	if k == 0 {
-		return
-	}
-	s.preemptions++
-	if k == len(rs) {
-		s.log(fmt.Sprintf("timer expires early (before %s of g%d)", what, g.id))
-		s.fireNextTimer()
-		return
-	}
-	s.log(fmt.Sprintf("preempt g%d(%s) before %s", g.id, g.name, what))
-	s.transfer(g, rs[k])
 }
 
 // killAll terminates every goroutine other than main at the end of a path.
